@@ -19,6 +19,10 @@ pub(crate) struct Thread {
     /// call to `park`.
     unpark_token: bool,
 
+    /// Causality of the threads that unparked this thread. It is acquired
+    /// when `park` returns, not before.
+    unpark_causality: VersionVec,
+
     /// True if the thread is in a critical section
     pub critical: bool,
 
@@ -104,6 +108,7 @@ impl Thread {
             state: State::Runnable,
             parked: false,
             unpark_token: false,
+            unpark_causality: VersionVec::new(),
             critical: false,
             operation: None,
             causality: VersionVec::new(),
@@ -175,8 +180,16 @@ impl Thread {
     }
 
     pub(crate) fn unpark(&mut self, unparker: &Thread) {
-        self.causality.join(&unparker.causality);
+        // `unpark` synchronizes with the return of the `park` call that
+        // consumes it; what the thread does before is not ordered after it.
+        self.unpark_causality.join(&unparker.causality);
         self.set_unparked();
+    }
+
+    /// Called when `park` returns: acquire the causality of the unparkers.
+    pub(crate) fn park_returned(&mut self) {
+        let unpark_causality = self.unpark_causality;
+        self.causality.join(&unpark_causality);
     }
 
     /// Wakes a thread that is blocked waiting for a notification (condition
